@@ -112,6 +112,7 @@ def build(spec) -> onnx.ModelProto:
     for f in spec.get("functions", []):
         walk(f["nodes"])
     ops = [h.make_opsetid("", spec.get("opset", 18))] + [h.make_opsetid(d, 1) for d in sorted(doms) if d != ""]
+    ops += [h.make_opsetid(d, v) for d, v in spec.get("extra_opsets", []) if d not in doms]      # imports nothing uses
     return h.make_model(g, opset_imports=ops, functions=fns, ir_version=spec.get("ir_version", 9))
 
 
@@ -586,6 +587,12 @@ class Gen:
                 "functions": self.functions}
         if r.random() < 0.4:
             spec = generated_looking_names(spec, r)
+        # opset imports nothing uses (model level / function level): RemoveUnusedOpsets has something to prune
+        if r.random() < 0.35:
+            spec["extra_opsets"] = r.choice([[["com.unused", 2]], [["com.unused", 2], ["ai.onnx.ml", 3]], [["ai.onnx.ml", 3]]])
+        for f in spec["functions"]:
+            if r.random() < 0.3:
+                f["opsets"] = [["", 18], ["local", 1]] + r.choice([[["com.unused", 2]], [["ai.onnx.ml", 3]]])      # (same version per domain everywhere: the inliner insists)
         return spec
 
 
